@@ -7,6 +7,7 @@ import FitProofs.EncodeItems
 import FitProofs.MsgRoundtrip
 import FitModel.Gen.Profile
 import FitProofs.Replay
+import FitProofs.ArrayRT
 import FitProps.C01
 /-!
   C06 — Encode then Decode returns the values that were put in.
@@ -491,6 +492,106 @@ set_option maxRecDepth 100000 in
 example : encodeDecode exampleFileId = some exampleFileId := by decide +kernel
 
 
+
+/-! ### full-length arrays of unsigned elements -/
+
+/-- **An array field of unsigned elements, end to end**: an array of exactly the profile's length,
+    every element within the element type, comes back element for element. -/
+theorem fieldRT_unsigned_array (P : Profile) (hwf : ProfileWF P = true) (dm : DefMsg) (pf : PField) (w : Nat) (xs : List Nat)
+    (hgf : P.getField dm.global pf.num = some pf)
+    (hnat : tcKind pf.tcode = .native) (harr : tcArray pf.tcode = true)
+    (hw : (w = 1 ∧ (tcBase pf.tcode = Base.enum ∨ tcBase pf.tcode = Base.uint8 ∨ tcBase pf.tcode = Base.uint8z)) ∨
+          (w = 2 ∧ (tcBase pf.tcode = Base.uint16 ∨ tcBase pf.tcode = Base.uint16z)) ∨
+          (w = 4 ∧ (tcBase pf.tcode = Base.uint32 ∨ tcBase pf.tcode = Base.uint32z)))
+    (hlen : xs.length = pf.length) (hx : ∀ x ∈ xs, x < 256 ^ w) :
+    FieldRT P dm pf (.sl (.u (8 * w))) (.us (some xs)) := by
+  intro msg ts part hpart
+  obtain ⟨pm, hpm, hfw⟩ := getField_wf P hwf _ _ _ hgf
+  have facts := fieldWF_facts pm pf hfw
+  obtain ⟨k, hl, hslot⟩ := facts.slot
+  have hw' : (w = 1 ∧ (tcBase pf.tcode = Base.enum ∨ tcBase pf.tcode = Base.byte ∨ tcBase pf.tcode = Base.uint8 ∨
+      tcBase pf.tcode = Base.uint8z)) ∨ (w = 2 ∧ (tcBase pf.tcode = Base.uint16 ∨ tcBase pf.tcode = Base.uint16z)) ∨
+      (w = 4 ∧ (tcBase pf.tcode = Base.uint32 ∨ tcBase pf.tcode = Base.uint32z)) := by
+    rcases hw with ⟨h1, h | h | h⟩ | h | h
+    · exact Or.inl ⟨h1, Or.inl h⟩
+    · exact Or.inl ⟨h1, Or.inr (Or.inr (Or.inl h))⟩
+    · exact Or.inl ⟨h1, Or.inr (Or.inr (Or.inr h))⟩
+    · exact Or.inr (Or.inl h)
+    · exact Or.inr (Or.inr h)
+  obtain ⟨hsc, hns, hsize⟩ := unsigned_slot_width (tcBase pf.tcode) w hw'
+  have hnb : tcBase pf.tcode ≠ Base.byte := by
+    rcases hw with ⟨_, h | h | h⟩ | ⟨_, h | h⟩ | ⟨_, h | h⟩ <;> (rw [h]; decide)
+  have hk : k = .sl (.u (8 * w)) := by
+    unfold slotOfType at hslot
+    rw [hnat] at hslot
+    simp only [hsc, harr, ↓reduceIte, Option.some.injEq] at hslot
+    exact hslot.symm
+  subst hk
+  have hl256 : pf.length < 256 := by
+    have := facts.lenB (Or.inl harr)
+    rw [hsize] at this
+    rcases hw with ⟨h, _⟩ | ⟨h, _⟩ | ⟨h, _⟩ <;> (subst h; omega)
+  have hwpos : 0 < w := by rcases hw with ⟨h, _⟩ | ⟨h, _⟩ | ⟨h, _⟩ <;> omega
+  rw [writeField_unsigned_array dm.arch pf w xs harr hns hnat hlen hl256] at hpart
+  cases hpart
+  have hplen : ((xs.map (dm.arch.enc w)).flatten).length = w * pf.length := by
+    have : ∀ l : List Nat, ((l.map (dm.arch.enc w)).flatten).length = w * l.length := by
+      intro l
+      induction l with
+      | nil => simp
+      | cons a as ih =>
+        simp only [List.map_cons, List.flatten_cons, List.length_append, enc_length, ih, List.length_cons, Nat.mul_succ]
+        omega
+    rw [this, hlen]
+  have hsz : szOf pf = w * pf.length := by
+    unfold szOf
+    simp only [hns, ↓reduceIte, harr, hsize]
+    have := facts.lenB (Or.inl harr)
+    rw [hsize] at this
+    omega
+  refine ⟨ts, ?_⟩
+  unfold applyField
+  simp only [fdOf, hgf, hpm, hl, hnat, harr]
+  simp only [Bool.not_true, Bool.false_eq_true, ↓reduceIte, Bool.not_false, and_false, false_and]
+  have htake : ((xs.map (dm.arch.enc w)).flatten).take (szOf pf) = (xs.map (dm.arch.enc w)).flatten := by
+    apply List.take_of_length_le; rw [hplen, hsz]
+  rw [htake]
+  have hparse : parseFitFieldArray dm.arch ⟨pf.num, szOf pf, tcBase pf.tcode⟩ (.sl (.u (8 * w))) (xs.map (dm.arch.enc w)).flatten =
+      .ok (some (.us (some xs))) := by
+    unfold parseFitFieldArray
+    simp only [hnb, ↓reduceIte, hsize]
+    have hw0 : ¬ w = 0 := by omega
+    simp only [hw0, ↓reduceIte]
+    rw [chunks_encodings dm.arch w hwpos xs _ (Nat.le_refl _)]
+    have hun : (tcBase pf.tcode = Base.uint8 ∨ tcBase pf.tcode = Base.uint8z ∨ tcBase pf.tcode = Base.enum ∨
+        tcBase pf.tcode = Base.uint16 ∨ tcBase pf.tcode = Base.uint16z ∨ tcBase pf.tcode = Base.uint32 ∨
+        tcBase pf.tcode = Base.uint32z) := by
+      rcases hw with ⟨_, h | h | h⟩ | ⟨_, h | h⟩ | ⟨_, h | h⟩ <;> simp [h]
+    simp only [hun, ↓reduceIte]
+    rw [List.mapM_map]
+    have hm : ∀ l : List Nat, (∀ x ∈ l, x < 256 ^ w) →
+        (l.mapM fun e => setUint (.sc (.u (8 * w))) (dm.arch.dec (dm.arch.enc w e))) = some (l.map Val.u) := by
+      intro l hl
+      induction l with
+      | nil => rfl
+      | cons a as ih =>
+        rw [List.mapM_cons, ih (fun x hx' => hl x (List.mem_cons_of_mem _ hx'))]
+        have ha := hl a (List.mem_cons_self ..)
+        have e256 : (256 : Nat) ^ w = 2 ^ (8 * w) := by
+          rw [show (256 : Nat) = 2 ^ 8 by rfl, ← Nat.pow_mul]
+        simp only [setUint, dec_enc, Nat.mod_eq_of_lt ha]
+        rw [Nat.mod_eq_of_lt (by rw [← e256]; exact ha)]
+        rfl
+    simp only [Function.comp_def]
+    rw [hm xs hx]
+    simp only
+    congr 4
+    clear hm hx hlen hplen htake
+    induction xs with
+    | nil => rfl
+    | cons a as ih => simp only [List.map_cons, List.filterMap_cons, ih]
+  rw [hparse]
+
 /-! ### the empty string as a filler -/
 
 theorem utf8Valid_zeros (n : Nat) : utf8Valid (List.replicate n 0) = true := by
@@ -585,6 +686,15 @@ def valRT (pf : PField) (k : SlotKind) (v : Val) : Bool :=
     tcKind pf.tcode == .native && !tcArray pf.tcode && tcBase pf.tcode == Base.string &&
       !b.isEmpty && decide (b.length < pf.length) && b.all (· != 0) &&
       utf8Valid (b ++ List.replicate (pf.length - b.length) 0)
+  | .sl (.u 8), .us (some xs) =>
+    tcKind pf.tcode == .native && tcArray pf.tcode && decide (xs.length = pf.length) && xs.all (fun x => decide (x < 256)) &&
+      (tcBase pf.tcode == Base.enum || tcBase pf.tcode == Base.uint8 || tcBase pf.tcode == Base.uint8z)
+  | .sl (.u 16), .us (some xs) =>
+    tcKind pf.tcode == .native && tcArray pf.tcode && decide (xs.length = pf.length) && xs.all (fun x => decide (x < 65536)) &&
+      (tcBase pf.tcode == Base.uint16 || tcBase pf.tcode == Base.uint16z)
+  | .sl (.u 32), .us (some xs) =>
+    tcKind pf.tcode == .native && tcArray pf.tcode && decide (xs.length = pf.length) &&
+      xs.all (fun x => decide (x < 4294967296)) && (tcBase pf.tcode == Base.uint32 || tcBase pf.tcode == Base.uint32z)
   | .time, .t secs 0 0 => tcKind pf.tcode == .timeUTC && decide (0 ≤ secs ∧ secs < 4294967295)
   | .lat, .lat z => tcKind pf.tcode == .lat && decide ((-1073741824 ≤ z ∧ z < 1073741824) ∨ z = 2147483647)
   | .lng, .lng z => tcKind pf.tcode == .lng && decide (-2147483648 ≤ z ∧ z < 2147483648)
@@ -622,6 +732,21 @@ theorem valRT_sound (P : Profile) (hwf : ProfileWF P = true) (dm : DefMsg) (pf :
       ne_eq] at h
     obtain ⟨⟨⟨⟨⟨⟨h1, h2⟩, h3⟩, h4⟩, h5⟩, h6⟩, h7⟩ := h
     exact fieldRT_string P hwf dm pf b hgf h1 h2 h3 (by intro e; rw [e] at h4; cases h4) h5 h6 h7
+  · simp only [Bool.and_eq_true, beq_iff_eq, decide_eq_true_eq, Bool.or_eq_true, List.all_eq_true] at h
+    obtain ⟨⟨⟨⟨h1, h2⟩, h3⟩, h4⟩, h5⟩ := h
+    exact fieldRT_unsigned_array P hwf dm pf 1 _ hgf h1 h2 (Or.inl ⟨rfl, by
+      rcases h5 with (h | h) | h
+      · exact Or.inl h
+      · exact Or.inr (Or.inl h)
+      · exact Or.inr (Or.inr h)⟩) h3 (fun x hx => by have := h4 x hx; omega)
+  · simp only [Bool.and_eq_true, beq_iff_eq, decide_eq_true_eq, Bool.or_eq_true, List.all_eq_true] at h
+    obtain ⟨⟨⟨⟨h1, h2⟩, h3⟩, h4⟩, h5⟩ := h
+    exact fieldRT_unsigned_array P hwf dm pf 2 _ hgf h1 h2 (Or.inr (Or.inl ⟨rfl, h5⟩)) h3
+      (fun x hx => by have := h4 x hx; omega)
+  · simp only [Bool.and_eq_true, beq_iff_eq, decide_eq_true_eq, Bool.or_eq_true, List.all_eq_true] at h
+    obtain ⟨⟨⟨⟨h1, h2⟩, h3⟩, h4⟩, h5⟩ := h
+    exact fieldRT_unsigned_array P hwf dm pf 4 _ hgf h1 h2 (Or.inr (Or.inr ⟨rfl, h5⟩)) h3
+      (fun x hx => by have := h4 x hx; omega)
   · rename_i secs
     simp only [Bool.and_eq_true, beq_iff_eq, decide_eq_true_eq] at h
     obtain ⟨h1, h2, h3⟩ := h
